@@ -2,24 +2,46 @@ import os, re
 
 THEOREMS = {
     "Dawgs.Props.C10": [
-        "Dawgs.C10.Props.norm_preserves_eval", "Dawgs.C10.Props.norm_idempotent",
-        "Dawgs.C10.Props.parse_emit_canonical", "Dawgs.C10.Props.emitFixed_canonical",
-        "Dawgs.C10.Props.builder_roundtrip_fixed", "Dawgs.C10.Props.builder_roundtrip_partial",
-        "Dawgs.C10.Props.refute_and_over_xor", "Dawgs.C10.Props.and_over_xor_changes_meaning",
-        "Dawgs.C10.Props.refute_integral_float", "Dawgs.C10.Props.refute_all_of_kinds",
-        "Dawgs.C10.Props.all_of_kinds_changes_meaning", "Dawgs.C10.Props.builder_roundtrip_refuted",
-        "Dawgs.C10.Props.c10_full_refuted", "Dawgs.C10.Props.refute_not_over_and", "Dawgs.C10.Props.refute_not_not",
-        "Dawgs.C10.Props.refute_and_over_bare_or", "Dawgs.C10.Props.valid_needed_empty_list",
-        "Dawgs.C10.Props.valid_needed_min_int64", "Dawgs.C10.Props.operand_roundtrip_fixed",
-        "Dawgs.C10.Props.literal_roundtrip", "Dawgs.C10.Props.literal_roundtrip_current",
-        "Dawgs.C10.Props.literal_roundtrip_null", "Dawgs.C10.Props.literal_roundtrip_bool",
-        "Dawgs.C10.Props.literal_roundtrip_int", "Dawgs.C10.Props.literal_roundtrip_float_fixed",
-        "Dawgs.C10.Props.literal_roundtrip_string_token", "Dawgs.C10.Props.literal_roundtrip_list",
-        "Dawgs.C10.Props.float_integral_becomes_int", "Dawgs.C10.Props.literal_roundtrip_string",
-        "Dawgs.C10.Props.prepare_preserves_eval", "Dawgs.C10.Props.hoist_from_or_changes_meaning",
-        "Dawgs.C10.Props.hoist_from_xor_changes_meaning", "Dawgs.C10.Props.prepare_keeps_negated_kind_matcher",
-        "Dawgs.C10.Props.hoist_from_negation_changes_meaning", "Dawgs.C10.Props.two_hoisted_conjuncts_change_meaning",
-        "Dawgs.C10.Props.hoist_all_of_changes_meaning", "Dawgs.C10.Props.string_negation_guard_eval",
+        "Dawgs.C10.Props.norm_preserves_eval",
+        "Dawgs.C10.Props.norm_idempotent",
+        "Dawgs.C10.Props.parse_emit_canonical",
+        "Dawgs.C10.Props.emit_canonical",
+        "Dawgs.C10.Props.builder_roundtrip",
+        "Dawgs.C10.Props.c10_full_except",
+        "Dawgs.C10.Props.c10_full_fails_only_there",
+        "Dawgs.C10.Props.c10_full_refuted",
+        "Dawgs.C10.Props.valid_needed_empty_list",
+        "Dawgs.C10.Props.valid_needed_min_int64",
+        "Dawgs.C10.Props.builder_roundtrip_old_partial",
+        "Dawgs.C10.Props.refute_and_over_xor_old",
+        "Dawgs.C10.Props.and_over_xor_changes_meaning_old",
+        "Dawgs.C10.Props.refute_integral_float_old",
+        "Dawgs.C10.Props.refute_all_of_kinds_old",
+        "Dawgs.C10.Props.all_of_kinds_changes_meaning_old",
+        "Dawgs.C10.Props.builder_roundtrip_old_refuted",
+        "Dawgs.C10.Props.c10_full_old_refuted",
+        "Dawgs.C10.Props.refute_not_over_and_old",
+        "Dawgs.C10.Props.refute_not_not_old",
+        "Dawgs.C10.Props.refute_and_over_bare_or_old",
+        "Dawgs.C10.Props.operand_roundtrip_fixed",
+        "Dawgs.C10.Props.literal_roundtrip",
+        "Dawgs.C10.Props.literal_roundtrip_old",
+        "Dawgs.C10.Props.literal_roundtrip_null",
+        "Dawgs.C10.Props.literal_roundtrip_bool",
+        "Dawgs.C10.Props.literal_roundtrip_int",
+        "Dawgs.C10.Props.literal_roundtrip_float",
+        "Dawgs.C10.Props.literal_roundtrip_string_token",
+        "Dawgs.C10.Props.literal_roundtrip_list",
+        "Dawgs.C10.Props.float_integral_becomes_int_old",
+        "Dawgs.C10.Props.literal_roundtrip_string",
+        "Dawgs.C10.Props.prepare_preserves_eval",
+        "Dawgs.C10.Props.hoist_from_or_changes_meaning",
+        "Dawgs.C10.Props.hoist_from_xor_changes_meaning",
+        "Dawgs.C10.Props.prepare_keeps_negated_kind_matcher",
+        "Dawgs.C10.Props.hoist_from_negation_changes_meaning",
+        "Dawgs.C10.Props.two_hoisted_conjuncts_change_meaning",
+        "Dawgs.C10.Props.hoist_all_of_changes_meaning",
+        "Dawgs.C10.Props.string_negation_guard_eval",
     ],
 }
 
